@@ -594,8 +594,8 @@ func (raceArea) Run(line string) string {
 		return "bad-op"
 	}
 	seed, _ := strconv.ParseUint(f[1], 10, 64)
-	g := hx.Atoi(f[2])
-	rounds := hx.Atoi(f[3])
+	g := min(max(hx.Atoi(f[2]), 2), 4) // the search for a linearization is exponential in the number of calls per round
+	rounds := min(hx.Atoi(f[3]), 400)
 	res := make(chan string, 1)
 	go func() { res <- raceRun(seed, g, rounds) }()
 	select {
